@@ -18,13 +18,14 @@ package main
 //     value of the ignored part implies batch Allow.
 // CLASSIFICATION is causal, as for C06: the batch run is replayed policy by policy with the reference partial
 // evaluator (vh/partialref.go) through the same staging (partial evaluation before each variable is substituted);
-// with no repairs the replay must reproduce the observed batch result, and the failure is attributed to the
-// smallest set of repairs that makes the replay agree with the ordinary authorizer.  A request that still contains
-// an unknown whose record has two fields bearing it is `clonesub-second-occurrence`.
+// in one of its base configurations (vh.BaseCfgs: repaired code first, the code before the repairs last) the replay
+// must reproduce the observed batch result, and the failure is attributed to the smallest set of repairs on top of
+// that base that makes the replay agree with the ordinary authorizer.  A request that still contains an unknown
+// whose record has two fields bearing it is `clonesub-second-occurrence`.  All these classes are "fixed" in
+// known_findings: a returning defect is reported as a VIOLATION that names it.
 //
-// CORRESPONDENCE: op `clonesub` — batch.cloneSub (hook VerifCloneSub) against Model/Batch.lean: exact where every
-// record has at most one field bearing the variable, membership in the model's set of possible outcomes otherwise
-// (Go iterates a map there).
+// CORRESPONDENCE: op `clonesub` — batch.cloneSub (hook VerifCloneSub) against Model/Batch.lean, exact; op `batch` —
+// the whole enumeration against `batchAuthorize`.
 
 import (
 	"context"
@@ -328,72 +329,74 @@ func c05Orders(vars batch.Variables) [][]types.String {
 
 // c05Explain classifies a decision / reason mismatch for substitution sub.  Returns classes, ok.
 func c05Explain(cs c05Case, res c05Result, directClass map[cedar.PolicyID]string) ([]string, bool) {
-	for _, order := range c05Orders(cs.vars) {
-		events := map[string]int{}
-		staged := map[cedar.PolicyID]string{}
-		for _, ip := range cs.ps {
-			staged[ip.ID] = c05Staged(vh.RefCfg{}, cs, ip.AST, order, res.sub, events)
-		}
-		d, rs := authzOf(cs.ps, func(ip vh.IDPolicy) string { return staged[ip.ID] })
-		if d != res.decision || strings.Join(rs, ",") != strings.Join(res.reasons, ",") {
-			continue // this order does not reproduce the observed batch result
-		}
-		// per differing policy: smallest repair set under which the staged class agrees with the direct class
-		classes := map[string]bool{}
-		allOK := true
-		for _, ip := range cs.ps {
-			if (staged[ip.ID] == "sat") == (directClass[ip.ID] == "sat") {
-				continue
+	for _, base := range vh.BaseCfgs() {
+		for _, order := range c05Orders(cs.vars) {
+			events := map[string]int{}
+			staged := map[cedar.PolicyID]string{}
+			for _, ip := range cs.ps {
+				staged[ip.ID] = c05Staged(base, cs, ip.AST, order, res.sub, events)
 			}
-			ev := map[string]int{}
-			c05Staged(vh.RefCfg{}, cs, ip.AST, order, res.sub, ev)
-			cands := map[string]bool{}
-			for k := range ev {
-				cands[k] = true
+			d, rs := authzOf(cs.ps, func(ip vh.IDPolicy) string { return staged[ip.ID] })
+			if d != res.decision || strings.Join(rs, ",") != strings.Join(res.reasons, ",") {
+				continue // this base / order does not reproduce the observed batch result
 			}
-			for round := 0; round < 4; round++ {
+			// per differing policy: smallest repair set under which the staged class agrees with the direct class
+			classes := map[string]bool{}
+			allOK := true
+			for _, ip := range cs.ps {
+				if (staged[ip.ID] == "sat") == (directClass[ip.ID] == "sat") {
+					continue
+				}
+				ev := map[string]int{}
+				c05Staged(base, cs, ip.AST, order, res.sub, ev)
+				cands := map[string]bool{}
+				for k := range ev {
+					cands[k] = true
+				}
+				for round := 0; round < 4; round++ {
+					var names []string
+					for k := range cands {
+						names = append(names, k)
+					}
+					ev2 := map[string]int{}
+					c05Staged(base.With(names), cs, ip.AST, order, res.sub, ev2)
+					grew := false
+					for k := range ev2 {
+						if !cands[k] {
+							cands[k], grew = true, true
+						}
+					}
+					if !grew {
+						break
+					}
+				}
 				var names []string
 				for k := range cands {
 					names = append(names, k)
 				}
-				ev2 := map[string]int{}
-				c05Staged(vh.CfgWith(names), cs, ip.AST, order, res.sub, ev2)
-				grew := false
-				for k := range ev2 {
-					if !cands[k] {
-						cands[k], grew = true, true
+				sort.Strings(names)
+				found := false
+				for _, s := range vh.Subsets(names) {
+					if (c05Staged(base.With(s), cs, ip.AST, order, res.sub, map[string]int{}) == "sat") == (directClass[ip.ID] == "sat") {
+						for _, k := range s {
+							classes[k] = true
+						}
+						found = true
+						break
 					}
 				}
-				if !grew {
-					break
+				if !found {
+					allOK = false
 				}
 			}
-			var names []string
-			for k := range cands {
-				names = append(names, k)
-			}
-			sort.Strings(names)
-			found := false
-			for _, s := range vh.Subsets(names) {
-				if (c05Staged(vh.CfgWith(s), cs, ip.AST, order, res.sub, map[string]int{}) == "sat") == (directClass[ip.ID] == "sat") {
-					for _, k := range s {
-						classes[k] = true
-					}
-					found = true
-					break
+			if allOK && len(classes) > 0 {
+				var out []string
+				for k := range classes {
+					out = append(out, k)
 				}
+				sort.Strings(out)
+				return out, true
 			}
-			if !found {
-				allOK = false
-			}
-		}
-		if allOK && len(classes) > 0 {
-			var out []string
-			for k := range classes {
-				out = append(out, k)
-			}
-			sort.Strings(out)
-			return out, true
 		}
 	}
 	return nil, false
@@ -402,53 +405,55 @@ func c05Explain(cs c05Case, res c05Result, directClass map[cedar.PolicyID]string
 // c05ExplainIgnore: batch denied although some permit policy is satisfied for a value of the ignored part (env2).
 // Attribute it to the smallest set of repairs under which the staged residual of such a policy is satisfied.
 func c05ExplainIgnore(cs c05Case, res c05Result, env2 eval.Env) ([]string, bool) {
-	for _, order := range c05Orders(cs.vars) {
-		reproduced := true
-		var cands []vh.IDPolicy
-		for _, ip := range cs.ps {
-			st := c05Staged(vh.RefCfg{}, cs, ip.AST, order, res.sub, map[string]int{})
-			if st == "sat" {
-				reproduced = false // the replay would allow: this order is not the one batch used
+	for _, base := range vh.BaseCfgs() {
+		for _, order := range c05Orders(cs.vars) {
+			reproduced := true
+			var cands []vh.IDPolicy
+			for _, ip := range cs.ps {
+				st := c05Staged(base, cs, ip.AST, order, res.sub, map[string]int{})
+				if st == "sat" {
+					reproduced = false // the replay would allow: this base / order is not the one batch used
+				}
+				if vh.PolicyClass(ip.AST, env2) == "sat" {
+					cands = append(cands, ip)
+				}
 			}
-			if vh.PolicyClass(ip.AST, env2) == "sat" {
-				cands = append(cands, ip)
+			if !reproduced {
+				continue
 			}
-		}
-		if !reproduced {
-			continue
-		}
-		for _, ip := range cands {
-			ev := map[string]int{}
-			c05Staged(vh.RefCfg{}, cs, ip.AST, order, res.sub, ev)
-			names := map[string]bool{}
-			for k := range ev {
-				names[k] = true
-			}
-			for round := 0; round < 4; round++ {
+			for _, ip := range cands {
+				ev := map[string]int{}
+				c05Staged(base, cs, ip.AST, order, res.sub, ev)
+				names := map[string]bool{}
+				for k := range ev {
+					names[k] = true
+				}
+				for round := 0; round < 4; round++ {
+					var ns []string
+					for k := range names {
+						ns = append(ns, k)
+					}
+					ev2 := map[string]int{}
+					c05Staged(base.With(ns), cs, ip.AST, order, res.sub, ev2)
+					grew := false
+					for k := range ev2 {
+						if !names[k] {
+							names[k], grew = true, true
+						}
+					}
+					if !grew {
+						break
+					}
+				}
 				var ns []string
 				for k := range names {
 					ns = append(ns, k)
 				}
-				ev2 := map[string]int{}
-				c05Staged(vh.CfgWith(ns), cs, ip.AST, order, res.sub, ev2)
-				grew := false
-				for k := range ev2 {
-					if !names[k] {
-						names[k], grew = true, true
+				sort.Strings(ns)
+				for _, s := range vh.Subsets(ns) {
+					if c05Staged(base.With(s), cs, ip.AST, order, res.sub, map[string]int{}) == "sat" {
+						return s, true
 					}
-				}
-				if !grew {
-					break
-				}
-			}
-			var ns []string
-			for k := range names {
-				ns = append(ns, k)
-			}
-			sort.Strings(ns)
-			for _, s := range vh.Subsets(ns) {
-				if c05Staged(vh.CfgWith(s), cs, ip.AST, order, res.sub, map[string]int{}) == "sat" {
-					return s, true
 				}
 			}
 		}
@@ -698,15 +703,9 @@ func c05Check(c *vh.Ctx, g *vh.Gen, b *vh.Batch, cs c05Case, inject bool) c05Sta
 			}
 		}
 	}
-	// white-box correspondence of the whole enumeration with Model/Batch.lean (cases the model is deterministic on)
+	// white-box correspondence of the whole enumeration with Model/Batch.lean
 	if b != nil && !anyInvalid && err == nil && len(prod) <= 64 {
-		two := false
-		for n := range cs.vars {
-			if twoBearingFields(cs.t.Env.Context, n) {
-				two = true
-			}
-		}
-		if !two {
+		{
 			var lines []string
 			for _, r := range results {
 				lines = append(lines, c05Line(r))
@@ -1042,7 +1041,7 @@ func runC05(c *vh.Ctx) {
 		}
 	}
 	c.Res.Notes = append(c.Res.Notes,
-		fmt.Sprintf("cases=%d (table %d); callbacks observed=%d; templates inside the proved domain (no known-unsound situation at the first stage, no record with two fields bearing one unknown)=%d, inside known-unsound regions=%d; failing cases=%d", len(cases), nTable, totalCalls, inside, outside, failing),
+		fmt.Sprintf("cases=%d (table %d); callbacks observed=%d; templates exercising no situation of a repaired defect family (at the first stage; no record with two fields bearing one unknown)=%d, exercising one=%d; failing cases=%d", len(cases), nTable, totalCalls, inside, outside, failing),
 		"failing cases by class: "+fmtCounts(failingByClass))
 	ds, _, err := c.Correspond(b)
 	if err != nil {
